@@ -459,8 +459,127 @@ fn decode_case() -> impl Strategy<Value = EvalCase> {
     ]
 }
 
+/// round to nearest, ties to even, of a non-negative integer into a binary float with `mant` mantissa
+/// bits and maximum exponent `emax` (f32: 24, 128; f64: 53, 1024): (bit pattern, exact)
+fn rne_int(mag: &BigUint, neg: bool, mant: u64, emax: u64, ebias: u64, width: u32) -> (u64, bool) {
+    let sign = (neg as u64) << (width - 1);
+    if mag.is_zero() {
+        return (0, true);
+    }
+    let bits = mag.bits();
+    let (mut m, mut e, exact) = if bits <= mant {
+        (mag.clone(), 0u64, true)
+    } else {
+        let sh = bits - mant;
+        let q = mag >> sh;
+        let rem = mag - (&q << sh);
+        let half = BigUint::one() << (sh - 1);
+        let up = rem > half || (rem == half && q.bit(0));
+        (if up { q + 1u8 } else { q }, sh, rem.is_zero())
+    };
+    if m.bits() > mant {
+        m >>= 1;
+        e += 1;
+    }
+    let top = m.bits() + e; // value < 2^top
+    let inf = ((1u64 << (width as u64 - 1 - (mant - 1))) - 1) << (mant - 1);
+    if top > emax {
+        return (sign | inf, false);
+    }
+    // normalise to a full mantissa
+    let sh = mant - m.bits();
+    let mfull = (m << sh).iter_u64_digits().next().unwrap_or(0);
+    let exp_field = top - 1 + ebias;
+    (sign | (exp_field << (mant - 1)) | (mfull & ((1u64 << (mant - 1)) - 1)), exact)
+}
+
+/// integer -> f32 / f64 next to the rounding boundaries: a mantissa, a half bit, and a sticky part
+/// that is zero, a single bit at any distance below the half bit, or random; anchored to the
+/// host's own round-to-nearest-even
+fn conv_case() -> impl Strategy<Value = EvalCase> {
+    (any::<u64>(), any::<bool>(), 1u64..200, 0u8..8, any::<u64>(), any::<bool>(), any::<bool>()).prop_map(|(mraw, f32_, tail, sk, s, neg, half)| {
+        let mant = if f32_ { 24u64 } else { 53 };
+        let m = (mraw >> (64 - mant)) | (1u64 << (mant - 1));
+        let m = match sk {
+            6 => (1u64 << mant) - 1, // rounding up carries into the next binade
+            7 => 1u64 << (mant - 1),
+            _ => m,
+        };
+        let mut v = BigUint::from(m) << tail;
+        if half {
+            v |= BigUint::one() << (tail - 1);
+        }
+        if tail >= 2 {
+            let below = tail - 1; // positions 0..below-1 are sticky
+            match sk % 4 {
+                0 => {}
+                1 => v |= BigUint::one() << (s % below),
+                2 => v |= BigUint::one() << (below - 1 - (s % below.min(40))),
+                _ => v |= BigUint::from(s) & ((BigUint::one() << below.min(64)) - 1u8),
+            }
+        }
+        let ia = if neg { -BigInt::from(v.clone()) } else { BigInt::from(v.clone()) };
+        let (bits, exact) = if f32_ { rne_int(&v, neg, 24, 128, 127, 32) } else { rne_int(&v, neg, 53, 1024, 1023, 64) };
+        let big = v.bits() > 64;
+        if f32_ {
+            EvalCase { line: format!("if32 {}", hx(&ia)), expect: Some(format!("{:08x} {}", bits, exact)), kind: "eq".into(), label: format!("int:to_f32 near a rounding boundary ({} bits)", if v.bits() <= 64 { "<= 64" } else if v.bits() <= 128 { "65-128" } else { "> 128" }), nontrivial: big }
+        } else {
+            EvalCase { line: format!("if64 {}", hx(&ia)), expect: Some(format!("{:016x} {}", bits, exact)), kind: "eq".into(), label: format!("int:to_f64 near a rounding boundary ({} bits)", if v.bits() <= 64 { "<= 64" } else if v.bits() <= 128 { "65-128" } else { "> 128" }), nontrivial: big }
+        }
+    })
+}
+
+/// modular products with residues shorter than the modulus and moduli whose bit length is a
+/// multiple of the word size (no normalisation shift), anchored to num-bigint
+fn mod_case() -> impl Strategy<Value = EvalCase> {
+    (2usize..7, any::<u64>(), 0u8..4, gen::nat(Prof::Small), gen::nat(Prof::Small), 0u8..12, 0u8..12, any::<bool>()).prop_map(|(k, s, shape, a, b, pa, pb, half_words)| {
+        // modulus of k 64-bit words (or k 32-bit words and a half); top bit set unless shape == 3
+        let mut mw = gen::expand(k, (s % 12) as u8, s);
+        mw.resize(k, 0);
+        match shape {
+            0 | 1 => mw[k - 1] |= 1 << 63,
+            2 => {
+                mw[k - 1] |= 1 << 63;
+                mw[0] |= 1;
+            }
+            _ => mw[k - 1] |= 1,
+        }
+        let mut m = dv::Nat(mw).big();
+        if half_words {
+            m >>= 32u32; // bit length a multiple of 32 only
+        }
+        if m.is_zero() {
+            m = BigUint::from(7u8);
+        }
+        // residues: short ones (la + lb <= k words) with all-ones / random words, or whatever came
+        let la = 1 + (pa as usize) % k.max(2).saturating_sub(1).max(1);
+        let lb = (k - la.min(k - 1)).max(1);
+        let short = |n: &dv::Nat, l: usize, pat: u8| -> BigUint {
+            let mut w = n.0.clone();
+            w.resize(l, if pat % 3 == 0 { u64::MAX } else { 0x8000_0000_0000_0001 });
+            if pat % 3 == 0 {
+                for x in w.iter_mut() {
+                    *x = u64::MAX;
+                }
+            }
+            dv::Nat(w[..l].to_vec()).big()
+        };
+        let (xa, xb) = if shape % 2 == 0 { (short(&a, la, pa), short(&b, lb, pb)) } else { (a.big(), b.big()) };
+        let (ra, rb) = (&xa % &m, &xb % &m);
+        let p = (&ra * &rb) % &m;
+        let sq = (&ra * &ra) % &m;
+        let su = (&ra + &rb) % &m;
+        let di = ((&ra + &m) - &rb) % &m;
+        let expect = format!("{} {} {} {} {}", hxu(&p), hxu(&p), hxu(&sq), hxu(&su), hxu(&di));
+        let lbl = if &xa * &xb >= m && xa.bits() + xb.bits() <= m.bits() + 64 { "int:modular product of short residues wraps the modulus" } else { "int:modular product" };
+        EvalCase { line: format!("imodmul {} {} {}", hxu(&xa), hxu(&xb), hxu(&m)), expect: Some(expect), kind: "eq".into(), label: lbl.into(), nontrivial: m.bits() > 64 }
+    })
+}
+
 fn all_cases() -> impl Strategy<Value = EvalCase> {
     prop_oneof![
+        3 => conv_case(),
+        3 => mod_case(),
         8 => int_case(),
         3 => misc_case(),
         4 => float_case(),
@@ -780,7 +899,7 @@ fn run_batch(bins: &[(String, String)], cases: &[EvalCase], tag: &str) -> Result
 fn main() {
     let mut ck = Check::new(
         "C19",
-        "a deterministic case file (integer ring/division/gcd/bit/shift/pow/root/ilog/radix text/bytes/f32-f64 conversion/modular ops, decimal and binary float add/sub/mul/div/sqrt/print/parse/to_int/to_f64/base change, rational arithmetic/print/parse/to_f64, serde json + postcard encodings, decoding of round-tripped, mutated and arbitrary input) generated from the seed with the structured operand generators and evaluated by dv-eval compiled against dashu in N build configurations {native x86_64, force_bits=64 (generic), force_bits=32} × {std, no_std} × {debug assertions on, off}; outputs compared line by line across builds, integer/rational results anchored to num-bigint, log2 bounds checked as enclosures per build, decoded values checked for canonical form. Non-trivial: operands longer than one word, float/ratio/serde cases; distinct by case line.",
+        "a deterministic case file (integer ring/division/gcd/bit/shift/pow/root/ilog/radix text/bytes/f32-f64 conversion (also next to rounding boundaries: mantissa, half bit and one sticky bit at every distance, anchored to round-to-nearest-even computed by the check)/modular ops (also products of residues shorter than the modulus with moduli whose length is a whole number of 32/64-bit words), decimal and binary float add/sub/mul/div/sqrt/print/parse/to_int/to_f64/base change, rational arithmetic/print/parse/to_f64, serde json + postcard encodings, decoding of round-tripped, mutated and arbitrary input) generated from the seed with the structured operand generators and evaluated by dv-eval compiled against dashu in N build configurations {native x86_64, force_bits=64 (generic), force_bits=32} × {std, no_std} × {debug assertions on, off}; outputs compared line by line across builds, integer/rational results anchored to num-bigint, log2 bounds checked as enclosures per build, decoded values checked for canonical form. Non-trivial: operands longer than one word, float/ratio/serde cases; distinct by case line.",
     );
     let th = ck.thorough();
     let mut cfgs: Vec<Cfg> = QUICK_CFGS.to_vec();
